@@ -370,9 +370,11 @@ def Dense.expand (a : Dense) (idx : Nat) : Option Dense :=
                        cap := growCap targetLen a.values.length a.cap }
   else some a
 
-def VProp.isWritable (p : VProp) : Bool := if p.accessor then p.setter.isSome else p.writable
-/-- `valueProperty.set`: a data property stores the value, an accessor calls its setter. -/
-def VProp.setValue (p : VProp) (v : Val) : VProp := if p.accessor then p else { p with value := v }
+/-- value.go:509 `isWritable`: `p.writable || p.setterFunc != nil` (NB: for an accessor without a
+setter this consults the `writable` flag left over from before the element became an accessor). -/
+def VProp.isWritable (p : VProp) : Bool := p.writable || p.setter.isSome
+/-- value.go:526 `valueProperty.set`: without a setter the value is stored, otherwise the setter runs. -/
+def VProp.setValue (p : VProp) (v : Val) : VProp := if p.setter.isSome then p else { p with value := v }
 
 def Sparse.add (s : Sparse) (idx : Nat) (e : Elem) : Sparse := { s with items := sIns s.items idx e }
 
